@@ -260,6 +260,16 @@ class PEmitter:
                 self.assigned(x, acc)
         return acc
 
+    def has_exit(self, node):
+        """an explicit `return` or `break` (a `?` only propagates Err, which the monad does by itself)"""
+        if isinstance(node, tuple):
+            if node and node[0] in ("return", "break"):
+                return True
+            return any(self.has_exit(x) for x in node)
+        if isinstance(node, list):
+            return any(self.has_exit(x) for x in node)
+        return False
+
     def has_return(self, node):
         if isinstance(node, tuple):
             if node and node[0] in ("return", "try", "break"):
@@ -344,7 +354,7 @@ class PEmitter:
             return self.block(e, env, k, want)
         if kind == "field":
             return self.field(e, env, k)
-        if kind == "macro" and e[1] == "matches":
+        if kind == "matches":
             return self.matches(e, env, k)
         if kind == "return":
             return self.ret(e[1], env)
@@ -476,7 +486,7 @@ class PEmitter:
         if name == "skip_bits" and len(args) == 1:
             return ("n", args[0], lambda n: "skip_bits %s %s" % (n, r), "unit", "r")
         if name == "recognize_start_code" and len(args) == 1:
-            return ("n", args[0], lambda n: "recognize_start_code %s %s" % (n, r), ("opt", "u8"), "v")
+            return ("n", args[0], lambda n: "recognize_start_code %s %s" % (n, r), ("opt", "u32"), "v")
         raise Untranslatable("reader method .%s()" % name)
 
     def try_(self, inner, env, k, want):
@@ -518,6 +528,12 @@ class PEmitter:
                     return "let* (%s, %s) := %s %s %s in\n  %s" % (v, r2, cname, " ".join(acc), env["$reader"][0], k(v, rty, env2))
                 return self.expr(args[i], env, lambda a, t, env: go(i + 1, acc + [a], env), ptys[i - 1])
             return go(1, [], env)
+        if inner[0] == "call" and inner[1] == ("var", "decode_pei") and inner[2] == [("var", "reader")]:
+            # the PEI / PSUPP loop is not translated: the model's fuelled recursion stands for it
+            v, r2 = self.fresh("v"), self.fresh("r")
+            env2 = dict(env); env2["$reader"] = (r2, "reader")
+            r = env["$reader"][0]
+            return "let* (%s, %s) := decode_pei (S (length (rbits %s))) [] %s in\n  %s" % (v, r2, r, r, k(v, ("vec", "u8"), env2))
         raise Untranslatable("`?` applied to %s" % inner[0])
 
     def error_of(self, e):
@@ -667,7 +683,35 @@ class PEmitter:
         return self.expr(recv, env, after)
 
     def matches(self, e, env, k):
-        raise Untranslatable("matches!")
+        subject, pat, guard = e[1], e[2], e[3]
+        # matches!(x, Enum::A | Enum::B)
+        alts = pat[1] if pat[0] == "por" else [pat]
+        if guard is None and all(p[0] == "ppath" and len(p[1]) == 2 and p[1][0] in ENUMS for p in alts):
+            def after(a, t, env):
+                arms = " | ".join(ENUMS[p[1][0]][p[1][1]] for p in alts)
+                return k("(match %s with %s => true | _ => false end)" % (a, arms), "bool", env)
+            return self.expr(subject, env, after)
+        # matches!((&a, &b), (Some(x), Some(y)) if x != y)  on two optional formats
+        while subject[0] == "paren":
+            subject = subject[1]
+        if subject[0] == "tuple" and len(subject[1]) == 2 and pat[0] == "ptuple" and len(pat[1]) == 2 and guard is not None \
+                and all(p[0] == "pctor" and p[1] == ["Some"] and p[2][0][0] == "pid" for p in pat[1]):
+            x, y = pat[1][0][2][0][1], pat[1][1][2][0][1]
+            g = guard
+            while g[0] == "paren":
+                g = g[1]
+            if g[0] == "bin" and g[1] in ("!=", "==") and {g[2], g[3]} == {("var", x), ("var", y)}:
+                def a1(a, ta, env):
+                    def a2(b, tb, env):
+                        ta2, tb2 = resolve(ta), resolve(tb)
+                        if not (isinstance(ta2, tuple) and ta2[0] == "opt" and ta2[1] == "SourceFormat" and isinstance(tb2, tuple) and tb2[0] == "opt"):
+                            raise Untranslatable("matches! on %r, %r" % (ta2, tb2))
+                        eq = "(format_eqb %s %s)" % (a, b)
+                        body = "(negb %s)" % eq if g[1] == "!=" else eq
+                        return k("(match %s, %s with Some _, Some _ => %s | _, _ => false end)" % (a, b, body), "bool", env)
+                    return self.expr(subject[1][1], env, a2)
+                return self.expr(subject[1][0], env, a1)
+        raise Untranslatable("matches! with this pattern")
 
     # ---- control flow
     def block(self, blk, env, k, want=None):
@@ -878,12 +922,23 @@ class PEmitter:
                         return "let %s := (if %s then %s else %s) in\n  %s" % (v, c, a, old, go(j + 1, env2))
                     return self.expr(rhs, env, upd, told)
                 return go(0, env)
+            if not any(self.has_exit(b) for b in branches):
+                # direct style: the branches only update variables and read; their result is the tuple of updated variables
+                kname, vars_, params, envk = self.join(branches, env, None)
+                if "$reader" not in vars_:
+                    vars_ = vars_ + ["$reader"]; rp = self.fresh("reader"); params = params + [rp]; envk["$reader"] = (rp, "reader")
+                order = [v for v in vars_ if v != "$reader"] + ["$reader"]
+                pn = dict(zip(vars_, params))
+                tup = lambda env2: "Ok (%s)" % ", ".join(env2[v][0] for v in order)
+                t_code = self.block(thn, env, lambda a, t, env2: tup(env2))
+                e_code = tup(env) if els is None else (self.if_stmt(els, env, lambda env2: tup(env2)) if els[0] == "if" else self.block(els, env, lambda a, t, env2: tup(env2)))
+                return "let* (%s) := (if %s then (%s) else (%s)) in\n  %s" % (", ".join(pn[v] for v in order), c, t_code, e_code, rest(envk))
             kname, vars_, params, envk = self.join(branches, env, None)
             body = rest(envk)
             callf = self.lift(kname, [], vars_, params, env, body)
             call = lambda env2: callf([], env2)
             t_code = self.block(thn, env, lambda a, t, env2: call(env2))
-            e_code = call(env) if els is None else self.block(els, env, lambda a, t, env2: call(env2))
+            e_code = call(env) if els is None else (self.if_stmt(els, env, lambda env2: call(env2)) if els[0] == "if" else self.block(els, env, lambda a, t, env2: call(env2)))
             return "if %s then (%s) else (%s)" % (c, t_code, e_code)
         return self.expr(c_e, env, with_cond, "bool")
 
@@ -905,6 +960,20 @@ class PEmitter:
                     ta, tb = h["a"][1], h["b"][1]
                     t = self.merge(ta, tb)
                     return k("(if %s then %s else %s)" % (c, h["a"][0], h["b"][0]), t, env)
+            if not self.has_exit(e[2]) and not self.has_exit(e[3]):
+                kname, vars_, params, envk = self.join([e[2], e[3]], env, None)
+                if "$reader" not in vars_:
+                    vars_ = vars_ + ["$reader"]; rp = self.fresh("reader"); params = params + [rp]; envk["$reader"] = (rp, "reader")
+                order = [v for v in vars_ if v != "$reader"] + ["$reader"]
+                pn = dict(zip(vars_, params))
+                vp = self.fresh("x")
+                h = {}
+                def tupv(a, t, env2):
+                    h["t"] = self.merge(h.get("t"), t)
+                    return "Ok (%s)" % ", ".join([a] + [env2[v][0] for v in order])
+                t_code = self.block(e[2], env, tupv, want)
+                e_code = self.block(e[3], env, tupv, want if want is not None else h.get("t"))
+                return "let* (%s) := (if %s then (%s) else (%s)) in\n  %s" % (", ".join([vp] + [pn[v] for v in order]), c, t_code, e_code, k(vp, h.get("t"), envk))
             kname, vars_, params, envk = self.join([e[2], e[3]], env, None)
             vp = self.fresh("x")
             h = {}
@@ -1029,6 +1098,24 @@ class PEmitter:
         none = [x for x in arms if (x[0][0] == "pid" and x[0][1] == "None") or (x[0][0] == "ppath" and x[0][1] == ["None"])]
         if len(some) != 1 or len(none) != 1 or len(arms) != 2:
             raise Untranslatable("match on an Option with other than Some/None arms")
+        if not self.has_exit(some[0][2]) and not self.has_exit(none[0][2]):
+            kname, vars_, params, envk = self.join([some[0][2], none[0][2]], env, None)
+            if "$reader" not in vars_:
+                vars_ = vars_ + ["$reader"]; rp = self.fresh("reader"); params = params + [rp]; envk["$reader"] = (rp, "reader")
+            order = [v for v in vars_ if v != "$reader"] + ["$reader"]
+            pn = dict(zip(vars_, params))
+            vp = self.fresh("x")
+            h = {}
+            def tupv(a2, t2, env2):
+                h["t"] = self.merge(h.get("t"), t2)
+                return "Ok (%s)" % ", ".join([a2] + [env2[v][0] for v in order])
+            sp = some[0][0][2][0]
+            sv = self.fresh("s")
+            some_body = lambda env2: (self.block(some[0][2], env2, tupv, want) if some[0][2][0] == "block" else self.expr(some[0][2], env2, tupv, want))
+            s_code = self.bind_pat(sp, sv, t[1], env, some_body)
+            n_code = self.block(none[0][2], env, tupv, want if want is not None else h.get("t")) if none[0][2][0] == "block" else self.expr(none[0][2], env, tupv, want if want is not None else h.get("t"))
+            return "let* (%s) := (match %s with\n  | Some %s => (%s)\n  | None => (%s)\n  end) in\n  %s" % (
+                ", ".join([vp] + [pn[v] for v in order]), a, sv, s_code, n_code, k(vp, h.get("t"), envk))
         kname, vars_, params, envk = self.join([some[0][2], none[0][2]], env, None)
         vp = self.fresh("x")
         h = {}
@@ -1183,7 +1270,7 @@ def coq_of(t, defs):
             return COQ_OF_TYPE[t]
         if t == "Picture":
             return "picture"
-        if t in defs.structs:
+        if t in ("CustomPictureFormat", "CustomPictureClock", "ScalabilityLayer") and t in defs.structs:
             return "(" + " * ".join(coq_of(norm(ft), defs) for _, ft in defs.structs[t]) + ")"
         return "unit"          # a type the translated functions never construct (BackchannelMessage, ...)
     if t[0] == "opt":
@@ -1277,8 +1364,10 @@ HEADER = ("(* GENERATED by tools/rs2v.py (rs2v_parser) from h263/src/parser/pict
           "From H263V Require Import base.Prelude base.Checked model.Types model.Tables model.Reader model.Header.\n"
           "Create HintDb pgen.\n\n")
 
+UNION = {"decode_picture"}
 FUNCTIONS = ["decode_ptype", "decode_plusptype", "decode_sorenson_ptype", "decode_cpm_and_psbi", "decode_cpfmt", "decode_cpcfc",
-             "decode_uui", "decode_sss", "decode_elnum_rlnum", "decode_rpsmf", "decode_trpi", "decode_bcm", "decode_trb", "decode_dbquant"]
+             "decode_uui", "decode_sss", "decode_elnum_rlnum", "decode_rpsmf", "decode_trpi", "decode_bcm", "decode_rprp", "decode_trb", "decode_dbquant",
+             "decode_picture"]
 
 
 def gen_parser(repo, status, write):
@@ -1321,7 +1410,7 @@ def gen_parser(repo, status, write):
     for f in FUNCTIONS:
         key = "parser.p_" + f
         try:
-            text, sig = translate_parser_fn(src, defs, f, "p_" + f, known, aliases)
+            text, sig = translate_parser_fn(src, defs, f, "p_" + f, known, aliases, union=(f in UNION))
             known[f] = sig
             body += text + "\n"
             status[key] = "ok"
